@@ -12,7 +12,11 @@ import asyncio.base_events
 import contextvars
 import itertools
 import math
+import os
 import time as _real_time
+import weakref
+
+_HARNESS_ROOT = os.path.dirname(os.path.dirname(os.path.abspath(__file__))) + os.sep
 
 NODE: contextvars.ContextVar = contextvars.ContextVar('sim_node', default=None)
 
@@ -63,7 +67,12 @@ class SimTask(asyncio.Task):
 
 
 def _task_factory(loop, coro, **kwargs):
-    return SimTask(coro, loop=loop, **kwargs)
+    task = SimTask(coro, loop=loop, **kwargs)
+    try:
+        loop._all_tasks_weak.append(weakref.ref(task))
+    except AttributeError:
+        pass
+    return task
 
 
 class _FakeSelector:
@@ -98,6 +107,8 @@ class SimLoop(asyncio.base_events.BaseEventLoop):
         self.wall_deadline = None
         self.monitors: list = []
         self.exc_contexts: list[dict] = []
+        self.harness_deaths: list[dict] = []
+        self._all_tasks_weak: list = []
         self.net = None  # set by sim.net.Net
         self.disk = None  # set by sim.disk.Disk
         self._in_monitor = False
@@ -156,6 +167,36 @@ class SimLoop(asyncio.base_events.BaseEventLoop):
             coro = getattr(task, 'get_coro', lambda: None)()
             rec['coro'] = getattr(coro, '__qualname__', None)
         self.exc_contexts.append(rec)
+
+    def scan_task_deaths(self):
+        """A task that ended with an exception nobody retrieved reaches the exception handler only when the task
+        object is freed, which a reference from a connection, a timeout object or a recorded event can postpone beyond
+        the end of the run: report those that are still alive here (same record as call_exception_handler).  Tasks
+        running harness coroutines (code under /verif) are kept apart."""
+        alive = []
+        for ref in self._all_tasks_weak:
+            task = ref()
+            if task is None:
+                continue
+            if not task.done():
+                alive.append(ref)
+                continue
+            if task.cancelled() or not getattr(task, '_log_traceback', False):
+                continue
+            exc = getattr(task, '_exception', None)
+            if exc is None:
+                continue
+            task._log_traceback = False
+            coro = task.get_coro()
+            code = getattr(coro, 'cr_code', None)
+            rec = {'message': 'Task exception was never retrieved (task still referenced)', 'exception': repr(exc),
+                   'exc_type': type(exc).__name__, 'time': self._now, 'task': task.get_name(),
+                   'node': getattr(task, 'node', None), 'coro': getattr(coro, '__qualname__', None)}
+            if code is not None and code.co_filename.startswith(_HARNESS_ROOT):
+                self.harness_deaths.append(rec)
+            else:
+                self.exc_contexts.append(rec)
+        self._all_tasks_weak = alive
 
     # executor ---------------------------------------------------------------
     def run_in_executor(self, executor, func, *args):
